@@ -917,6 +917,52 @@ fn panicking_io(rng: &mut Rng, rep: &mut Report) {
     }
 }
 
+/// A relay: every frame read from one stream is at once written to a sink on the same thread. Lines arrive in every
+/// spelling the decoder accepts (upper case, lower case, mixed; CR LF, or no terminator at the end of the stream); what
+/// goes out is the frame's own encoding — upper case, CR LF — whatever the line it came from looked like.
+fn relay_io(rng: &mut Rng, rep: &mut Report) {
+    for round in 0..60usize {
+        let f = if round % 6 == 0 { (0x0003u16, 0x04u8, vec![0x0F]) } else if round % 6 == 1 { (0xABCD, 0xEF, rng.bytes(255)) } else { rand_frame(rng) };
+        let canonical = refs::enc_crlf(f.0, f.1, &f.2);
+        let body = refs::enc(f.0, f.1, &f.2);
+        let spelled: Vec<u8> = match round % 3 {
+            0 => body.to_ascii_lowercase(),
+            1 => body.iter().enumerate().map(|(i, b)| if i % 2 == 0 { b.to_ascii_lowercase() } else { *b }).collect(),
+            _ => body.clone(),
+        };
+        for with_crlf in [true, false] {
+            let mut line = spelled.clone();
+            if with_crlf {
+                line.extend_from_slice(b"\r\n");
+            }
+            let sig = format!("relay|{}|{}", show_bytes(&line[..line.len().min(40)]), with_crlf);
+            rep.case(Some(fnv(&line) ^ 0x7E1A));
+            let r = catch(|| {
+                let mut stream = &line[..];
+                let got = Frame::read(&mut stream).map_err(|e| e.to_string())?;
+                let mut sink: Vec<u8> = vec![];
+                // written twice: as the object that was read, and as an equal frame built from scratch
+                got.write(&mut sink).map_err(|e| e.to_string())?;
+                let rebuilt = Frame::new(Address(f.0), MsgType(f.1), Data::try_new(f.2.clone()).expect("<=255"));
+                rebuilt.write(&mut sink).map_err(|e| e.to_string())?;
+                Ok::<(bool, Vec<u8>), String>((got == rebuilt, sink))
+            });
+            let want = [canonical.clone(), canonical.clone()].concat();
+            let what = match r {
+                Err(p) => Some(format!("panic {} at {}", p.msg, short_loc(&p.loc))),
+                Ok(Err(e)) => Some(format!("failed: {}", e)),
+                Ok(Ok((same, _))) if !same => Some("the frame read is not the frame the line spells".into()),
+                Ok(Ok((_, sink))) if sink != want => Some(format!("the sink holds [{}], two encodings of the frame are [{}]", show_bytes(&sink), show_bytes(&want))),
+                Ok(Ok(_)) => None,
+            };
+            match what {
+                None => rep.count("frames_relayed"),
+                Some(w) => rep.violation(MON_W, "relayed_frame_not_written_as_its_encoding", &sig, format!("a frame read from the line [{}] and written out again on the same thread: {}", show_bytes(&line), w), J::obj(vec![("workload", J::s("relay")), ("line", J::hex(&line)), ("observed", J::s(w.clone()))])),
+            }
+        }
+    }
+}
+
 fn exhaustive_write(rep: &mut Report) {
     let frames = [(0x0003u16, 0x02u8, vec![0xFFu8]), (0xABCD, 0x00, (0..16).collect::<Vec<u8>>()), (0, 1, vec![])];
     for f in frames {
@@ -1153,6 +1199,7 @@ pub fn run(ctx: &Ctx) -> Outcome {
             chatty_io(&mut ctx.rng("chatty", 0), rep);
             std_readers(&mut ctx.rng("std_readers", 0), rep);
             panicking_io(&mut ctx.rng("panicking", 0), rep);
+            relay_io(&mut ctx.rng("relay", 0), rep);
             twin_write_sessions(&mut ctx.rng("twins", 0), rep);
             marathon(rep);
         } else {
@@ -1197,6 +1244,7 @@ pub fn run(ctx: &Ctx) -> Outcome {
         floor("sinks and streams that write and read frames of their own during every call", report.get("chatty_sessions_ok") >= 20, report.get("chatty_sessions_ok")),
         floor("the standard library's readers and adaptors (slice, cursors, buffered readers, chains cut at every position, take) around streams of 2..5 lines", report.get("std_reader_rounds_ok") == 12, report.get("std_reader_rounds_ok")),
         floor("sinks and streams that panic in the middle of a call, then ordinary writes and reads on the same thread", report.get("sinks_and_streams_that_panicked") >= 30, report.get("sinks_and_streams_that_panicked")),
+        floor("frames read from lines in every accepted spelling and written out again at once on the same thread", report.get("frames_relayed") == 120, report.get("frames_relayed")),
         floor("gathering sinks and first-slice-only sinks", report.get("sinks/gathering") > 1000 && report.get("sinks/first_slice_only") > 1000, report.get("sinks/gathering")),
         floor("write failures surfaced and complete writes both observed", report.get("write_failures_surfaced") > 0 && report.get("writes_ok_complete") > 0, report.get("write_failures_surfaced")),
     ];
